@@ -305,6 +305,64 @@ fn two_subpaths(run: &Run, name: &str, w: i32, h: i32, pts: &[(i32, i32)]) {
     });
 }
 
+fn many_edges(run: &Run, q: bool) {
+    let stars: Vec<(usize, usize)> = if q { vec![(5, 2), (7, 3), (16, 7), (31, 12), (64, 27)] } else { vec![(5, 2), (7, 2), (7, 3), (9, 4), (11, 5), (16, 7), (17, 8), (31, 12), (31, 15), (64, 27), (97, 41), (128, 63), (257, 100)] };
+    let combs: Vec<usize> = if q { vec![3, 17, 64] } else { vec![3, 8, 17, 33, 64, 130] };
+    let tiles: Vec<usize> = if q { vec![9, 40] } else { vec![9, 25, 40, 100, 300] };
+    let phases: Vec<(i32, i32)> = (0..16).map(|i| (i % 4, i / 4)).collect();
+    run.bound("many-edges", format!("{} star polygons {{n/k}} on 10x10, {} combs on (2n+2)x3, {} tilings of small triangles on 40-wide surfaces, each at all 16 quarter phases, both rules, both antialias modes; one triangle family on 4000x1", stars.len(), combs.len(), tiles.len()));
+    let njobs = stars.len() + combs.len() + tiles.len();
+    run.par(njobs * 16, |s, l| {
+        let (dx, dy) = phases[s % 16];
+        let j = s / 16;
+        let mut ops: Vec<QOp> = Vec::new();
+        let (w, h);
+        if j < stars.len() {
+            let (n, k) = stars[j];
+            w = 10;
+            h = 10;
+            for i in 0..n {
+                let a = (i * k % n) as f64 / n as f64 * std::f64::consts::TAU;
+                let x = (20.0 + 19.0 * a.cos()).round() as i32 + dx;
+                let y = (20.0 + 19.0 * a.sin()).round() as i32 + dy;
+                ops.push(if i == 0 { QOp::M(x, y) } else { QOp::L(x, y) });
+            }
+            ops.push(QOp::Z);
+        } else if j < stars.len() + combs.len() {
+            let n = combs[j - stars.len()] as i32;
+            w = 2 * n + 2;
+            h = 3;
+            ops.push(QOp::M(dx, 11 + dy));
+            for i in 0..n {
+                ops.push(QOp::L(dx + 8 * i + 1, dy - 1));
+                ops.push(QOp::L(dx + 8 * i + 5, dy + 2 + (i % 5)));
+                ops.push(QOp::L(dx + 8 * i + 7, 11 + dy - (i % 3)));
+            }
+            ops.push(QOp::L(dx + 8 * n, 11 + dy));
+            ops.push(QOp::Z);
+        } else {
+            let n = tiles[j - stars.len() - combs.len()] as i32;
+            w = 40;
+            h = (n + 19) / 20 * 2 + 1;
+            for i in 0..n {
+                let (cx, cy) = ((i % 20) * 8 + dx, (i / 20) * 8 + dy);
+                // alternating orientation, overlapping the neighbour by one quarter pixel
+                if i % 2 == 0 {
+                    ops.extend([QOp::M(cx, cy), QOp::L(cx + 9, cy + 1), QOp::L(cx + 3, cy + 7), QOp::Z]);
+                } else {
+                    ops.extend([QOp::M(cx, cy + 6), QOp::L(cx + 4, cy - 1), QOp::L(cx + 9, cy + 5)]);
+                }
+            }
+        }
+        l.states += ops.len() as u64;
+        let c = Case { w, h, ops };
+        eval_case(run, 900_000 + s, &c, l, &BOTH_AA, &BOTH_RULES);
+    });
+    let xs = [-3, 15981, 15990, 15995, 16001];
+    let ys = [-2, 1, 3, 6];
+    polygons(run, "i:triangles on a 4000x1 surface", 4000, 1, &grid(&xs, &ys), 3, false, &BOTH_AA, &BOTH_RULES);
+}
+
 impl Check for C01 {
     fn id(&self) -> &'static str {
         "C01"
@@ -371,6 +429,10 @@ impl Check for C01 {
             let ys2 = [-3, 2, 1021, 1026, 1030, 1203];
             polygons(run, "h:triangles on a 1x300 surface", 1, 300, &grid(&xs2, &ys2), 3, false, &BOTH_AA, &BOTH_RULES);
         }
+        // many edges at once: star polygons {n/k} (self-intersecting, up to n simultaneously
+        // active edges), combs (n teeth) and tilings of many small subpaths, at every quarter
+        // phase; a triangle at 4000 px on a 4000x1 surface
+        many_edges(run, q);
         // degenerate surfaces: nothing painted, nothing panics
         for (w, h) in [(0, 0), (0, 3), (3, 0)] {
             let xs = [-4, 0, 5, 13];
